@@ -122,6 +122,7 @@ def run(tier):
     ex = []
     res = tlc("CExpr", c02.cfg_text(2, ["min", "full"], True, inv=False), on_export=ex.append)
     tlc_ok(res, "CExpr")
+    ex.sort(key=lambda e: (e["mode"], " ".join(e["toks"])))
     ctx.add_tlc(res, "CExpr ops<=2")
     exprs = [["void", "f", "(", "void", ")", "{"] + e["toks"] + [";", "}"] for e in rnd.sample(ex, 1500 if tier == "quick" else len(ex))]
     ctoks = []
@@ -188,6 +189,7 @@ def run(tier):
     red = []
     res = tlc("CExpr", c02.cfg_text(2, ["red"], True, inv=False), on_export=red.append)
     tlc_ok(res, "CExpr red")
+    red.sort(key=lambda e: " ".join(e["toks"]))
     ctx.add_tlc(res, "CExpr ops<=2, one redundant pair around any operand")
     if tier == "quick":
         red = rnd.sample(red, min(len(red), 30000))
